@@ -5,7 +5,7 @@ from pyrex.custom.layered_ice import LayeredIce
 from vlib.core import Divergence
 
 ABOVE, BELOW = -1.0, -2.0          # sentinel outside indices: the region is observable without recomputing n(z)
-FREQS = np.array([1e8, 5e8])
+FREQS = np.array([1e8, 3e9])
 
 
 def models(rg):
@@ -107,11 +107,12 @@ class IceDriver:
 
     def inverse(self, c, last):
         lo, hi = float(c['rg'][0]), float(c['rg'][1])
-        for name, ice in models(c['rg']):
+        for name, ice, below in [(n_, i_, b_) for b_ in (None, 1.33, 1.9) for n_, i_ in models(c['rg'])]:
             if name == 'UniformIce':
                 continue
-            ice.index_above, ice.index_below = 1.0, None        # plain outside indices: the profile decides
-            n_top, n_bot = float(ice.index(hi)), float(ice.index(lo))
+            # outside indices must not influence the inverse: defaults, a small and a large explicit index below
+            ice.index_above, ice.index_below = 1.0, below
+            n_top, n_bot = float(ice.index(hi)), float(ice.index(lo))      # on the bounds the profile value, not the outside index
             gap = n_bot - n_top
             n = {'below_top': n_top - 0.01, 'at_top': n_top, 'middle': n_top + gap / 2, 'at_bottom': n_bot,
                  'above_bottom': n_bot + min(1e-4, (ice.n0 - n_bot) / 2), 'beyond_asymptote': ice.n0 + 0.01}[c['pos']]
@@ -120,7 +121,7 @@ class IceDriver:
             self.evals += 1
             z = float(ice.depth_with_index(n))
             za = np.asarray(ice.depth_with_index(np.array([n, n_top + gap / 3, n])), dtype=float)
-            where = '%s%s.depth_with_index(%r) [%s]' % (name, tuple(c['rg']), n, c['pos'])
+            where = '%s%s(index_below=%s).depth_with_index(%r) [%s]' % (name, tuple(c['rg']), below, n, c['pos'])
             if last['inv'] == 'clamp_top' and z != hi:
                 raise Divergence(where, hi, z)
             if last['inv'] == 'clamp_bottom' and z != lo:
